@@ -115,7 +115,8 @@ def install(E):
                 record(E, lab, "concrete_fail")
                 r, m = E.check(st.pc, want_model=True)
                 if r != "unsat":
-                    E.res.cex.append({"label": lab, "kind": "check", "inputs": E.model_inputs(st, m), "detail": "concrete false"})
+                    E.res.cex.append({"label": lab, "kind": "check", "inputs": E.model_inputs(st, m), "detail": "concrete false",
+                                      "pc": [str(x)[:300] for x in st.pc][-12:]})
             if E.given is not None:
                 E.res.closes.append(("check", lab, int(bool(c)), None, None))
             return None
